@@ -3,7 +3,7 @@
      control functions out of it), then the sequence; its LAST character is dispatched through the cost model
      (Cost.csi_final_c / csi_sp_c) when the parser is in a CSI state, every other character costs one tick.
      -> cls iters ticks alloc rows_before rows cells_before cells bh lh cx cy maxrow hash tw th  threaded_alloc scr   (cls 0 action 1 error value)
-        | -1 site | -2
+        | -1 site
    hash = sum over allocated cells (y, x) of ((y * 131 + x + 1) * (code + 1)) mod 2^31-1  (harness kind `seq`).
    run_hex s   : parse_hex_macro_sequence -> ok iters macro_length max_repeat
    run_glyphs h n : glyphs_from_u8_data on n zero bytes -> iterations
@@ -28,9 +28,8 @@ Fixpoint feed (m : amach) (cs : list Z) : option amach + list Z :=
   match cs with
   | [] => inl (Some m)
   | c :: r => match ansi_step m c with
-              | OOk m1 | OErr m1 => feed m1 r
+              | OOk m1 | OErr m1 | ODeep m1 => feed m1 r
               | OPanic s => inr [-1; s]
-              | ODiverge => inr [-2]
               end
   end.
 
@@ -66,15 +65,13 @@ Fixpoint feed_cost (m : amach) (cs : list Z) (acc : cost) (ta : Z) (t0 : term) :
            let ta' := ta + last_step_a m c in
            match o with
            | OOk m1 => obs 0 (cadd acc k) t0 (tm m1) ++ [ta'; scr t0]
-           | OErr m1 => obs 1 (cadd acc k) t0 (tm m1) ++ [ta'; scr t0]
+           | OErr m1 | ODeep m1 => obs 1 (cadd acc k) t0 (tm m1) ++ [ta'; scr t0]
            | OPanic s => [-1; s]
-           | ODiverge => [-2]
            end
   | c :: r => let '(o, k) := last_step m c in
               match o with
-              | OOk m1 | OErr m1 => feed_cost m1 r (cadd acc k) (ta + last_step_a m c) t0
+              | OOk m1 | OErr m1 | ODeep m1 => feed_cost m1 r (cadd acc k) (ta + last_step_a m c) t0
               | OPanic s => [-1; s]
-              | ODiverge => [-2]
               end
   end.
 
@@ -106,11 +103,12 @@ Definition run_hex (s : list Z) : list Z :=
   | None => [0; snd r; 0; hex_max_rep s HFirst 0; hex_reps s HFirst false 0; zlen s]
   end.
 (* macro replay: the definitions are fed to a fresh terminal (character-level model), then the macro table it holds is measured:
-   -> characters replayed by invoking [id] with nesting budget [fuel] (-2: deeper) ; longest body ; most invocations in a body ; B * geom c fuel *)
+   -> characters replayed by invoking [id] with nesting budget [fuel] ; 1 when the chain ended in MacroNestingTooDeep (deeper than the budget) ;
+      longest body ; most invocations in a body ; B * geom c fuel *)
 Definition run_macro_seq (fuel : Z) (defs : list Z) (id : Z) : list Z :=
   match feed (ansi_init 0 false 80 25) defs with
   | inl (Some m) => let ms := macros (ps m) in
-                    [match macro_chars (Z.to_nat fuel) ms id with Some n => n | None => -2 end;
+                    [fst (macro_chars (Z.to_nat fuel) ms id); (if snd (macro_chars (Z.to_nat fuel) ms id) then 1 else 0);
                      macros_maxlen ms; macros_maxinv ms; macros_maxlen ms * geom (macros_maxinv ms) (Z.to_nat fuel)]
   | inl None => [-3]
   | inr l => l
@@ -119,7 +117,7 @@ Definition run_macro_seq (fuel : Z) (defs : list Z) (id : Z) : list Z :=
 Definition run_glyphs (h n : Z) : list Z := [glyph_iters (Z.to_N h) (repeat 0%N (Z.to_nat n))].
 Definition run_raster (rest : list Z) : list Z := [raster_alloc rest].
 Definition run_macro (fuel : Z) (ms : list (Z * list Z)) (id : Z) : list Z :=
-  match macro_chars (Z.to_nat fuel) ms id with Some n => [n] | None => [-2] end.
+  [fst (macro_chars (Z.to_nat fuel) ms id); (if snd (macro_chars (Z.to_nat fuel) ms id) then 1 else 0)].
 
 (* ---- state comparison after short inputs (strengthening after the missed seeds, notes/C03.md) --------------------------------------------
    run_state w h a b : the WHOLE input a ++ b is fed to a fresh w x h terminal through the clamped dispatcher of the cost model
@@ -140,9 +138,8 @@ Fixpoint feed_st (m : amach) (cs : list Z) (nerr : Z) : (amach * Z) + list Z :=
   | [] => inl (m, nerr)
   | c :: r => match fst (last_step m c) with
               | OOk m1 => feed_st m1 r nerr
-              | OErr m1 => feed_st m1 r (nerr + 1)
+              | OErr m1 | ODeep m1 => feed_st m1 r (nerr + 1)
               | OPanic s => inr [-1; s]
-              | ODiverge => inr [-2]
               end
   end.
 Definition run_state (w h : Z) (a b : list Z) : list Z :=
